@@ -204,6 +204,9 @@ func runRoute(t *testing.T, c spec.Case, e Em) {
 			e.Call(fmt.Sprintf("a%d", idx), "accept", o)
 			t0 := time.Now()
 			if p.Kind == "mux" {
+				if it.HoldAtPickupMs > 0 {
+					pickupHold.Store(id, time.Duration(it.HoldAtPickupMs)*time.Millisecond)
+				}
 				x, err := vp.MuxAccept(am, id, nonceA, it.Len)
 				o.PeerID, o.PeerNonce, o.PayloadOK, o.Extra, o.Err = x.PeerID, x.PeerNonce, x.PayloadOK, x.Extra, errStr(err)
 			} else {
@@ -372,8 +375,22 @@ func runRoute(t *testing.T, c spec.Case, e Em) {
 	e.Obs("end", end)
 }
 
+// pickupHold: ids whose Accept is held at the hook point between taking the parked connection and
+// acknowledging it (several cases run in one process: ids of such items are made unique per case).
+var pickupHold sync.Map // uint32 -> time.Duration
+
 func routeTest(t *testing.T, par int, points ...string) {
-	plugin.VerifSetHook(vp.Jitter(seedEnv(), 3000, &routeHooks, points...))
+	jit := vp.Jitter(seedEnv(), 3000, &routeHooks, points...)
+	plugin.VerifSetHook(func(name string, id uint32) {
+		if name == "mux.accept.gotConn" {
+			if d, ok := pickupHold.LoadAndDelete(id); ok {
+				routeHooks.Inc(name)
+				time.Sleep(d.(time.Duration))
+				return
+			}
+		}
+		jit(name, id)
+	})
 	forCases(t, par, func(c spec.Case, e Em) { runRoute(t, c, e) })
 }
 
